@@ -508,7 +508,8 @@ def gen_C07(rng, tier):
         if 'strict=0' in cfg:
             # on arbitrary data a code read may ask for an astronomically long field; a strict backend
             # ends that at once with an error, a zero-extended one would spin for hours
-            alpha = [a for a in alpha if not a.startswith('rc ') or a.startswith('rc vbbe') or a.startswith('rc minbin') or a.startswith('rc omega')]
+            # (omega included: on arbitrary bits its block length can grow to 2^64)
+            alpha = [a for a in alpha if not a.startswith('rc ') or a.startswith('rc vbbe') or a.startswith('rc minbin')]
         ps = range(0, total + 1)
         if quick and total > 64:
             ps = sorted(set(list(range(0, 20)) + [W - 1, W, W + 1, 2 * W - 1, 2 * W, total - 1, total] + rng.sample(range(0, total + 1), 10)))
